@@ -55,7 +55,10 @@ def nontrivial(req, ans):
 SPEC = {
     "tables": ["LatexGates", "LatexTemplates"],
     "props_module": PROPS_MODULE,
-    "required": ["grid_rectangular", "connectors_in_grid_on_partner_partial", "undrawable_is_error", "emitter_templates_as_modelled", "neg_ctrl_between_targets_panics", "neg_conditional_composite_overwrites", "neg_barrier_column_reused"],
+    "required": ["grid_rectangular", "connectors_in_grid_on_partner_partial", "undrawable_is_error", "emitter_templates_as_modelled",
+                 "each_op_once_partial", "wire_order_partial", "column_order_partial", "connector_span_clear_partial",
+                 "printed_iff_drawn", "stage_is_expected_partial",
+                 "neg_ctrl_between_targets_panics", "neg_conditional_composite_overwrites", "neg_barrier_column_reused"],
     "drivers": ["drv_c13"],
     "harness_bin": "c13",
     "canon": canon,
@@ -81,5 +84,15 @@ def run(ctx):
         "parameters cross the boundary as the display strings the harness computes with the same format",
         "the theorems are about the grid of symbols the model's `code` prints; that the exported text reads back as that grid is checked by (B) "
         "on every generated case (Spec.QcGrid.readDoc on the implementation's text), not proved",
+        "reading of the property for identity gates (Spec.QcGrid.idleLinks / linesOkIdle): q1tsim draws `I` as the bare wire `\\qw`, so a control / "
+        "condition line of the same stage (C<I>, CC..I, conditional I) may end on that wire; a line ending on any other bare wire is a connector failure. "
+        "The theorem connectors_in_grid_on_partner_partial uses the strict reading and excludes I under a control",
+        "each_op_once / wire_order / connector_span_clear are proved on the model's matrix with ghost provenance (Cell.prov), for circuits over opOk operations; "
+        "the reference drawing circStages is tied to the independent reader's opItems by stage_is_expected_partial for one-column gates, measure, reset only; "
+        "for Kron/Composite/Loop/conditional/measure_all/reset_all/barrier that agreement is evaluated by (B) on every generated case",
+        "(B) class tags: connector/span failures are attributed to the operation that drew the cell by the model's provenance (the model is tied to the code by (A)); "
+        "a matching failure at operation k is attributed to the first operation of a known defective shape (multistage-in-range, kron-in-range, empty-loop-body) "
+        "at or before k, because the left-to-right matching is unreliable after such an operation; a panic is attributed to the operation at which the model panics. "
+        "Attribution never changes the verdict ok/fail, only the class tag",
         "Vec/slice semantics are list semantics; usize arithmetic is Nat arithmetic with explicit underflow checks; debug-profile overflow checks are on",
     ]
